@@ -225,15 +225,6 @@ theorem MH.blank_incomplete (cfg : Cfg) (h : MH) (c : Byte) (cs : Bytes) (he : i
     subst h10
     by_cases hs : cfg.strict = true <;> simp [hs]
 
-theorem MH.blank_field (cfg : Cfg) (h : MH) (a : Bytes) : (MH.blank cfg h a).1.field = h.field := by
-  cases a with
-  | nil => simp [MH.blank]
-  | cons c cs =>
-    simp only [MH.blank]
-    repeat' split
-    all_goals first | rfl | (simp_all; done) | skip
-    all_goals (split at * <;> simp_all)
-
 theorem MH.fresh_append (cfg : Cfg) (h : MH) (a b : Bytes)
     (hd : h.done = false) (hbc : h.blankCr = false) (hns : h.field.started = false) :
     MH.fresh cfg h (a ++ b) =
@@ -418,22 +409,22 @@ theorem MH.blank_suffix (cfg : Cfg) (h : MH) (buf : Bytes) : ∃ pre, buf = pre 
     simp only [MH.blank]
     by_cases h1 : (!h.blankCr && !isEol c) = true
     · simp only [h1, if_true]; exact ⟨[], rfl⟩
-    · simp only [h1]
+    · simp only [h1, Bool.false_eq_true, if_false]
       by_cases h2 : (!(!h.blankCr && c == 13) && cfg.strict && !h.blankCr) = true
       · simp only [h2, if_true]; exact ⟨[], rfl⟩
-      · simp only [h2]
+      · simp only [h2, Bool.false_eq_true, if_false]
         by_cases h3 : (!h.blankCr && c == 13) = true
-        · simp only [h3]
+        · simp only [h3, if_true]
           cases cs with
           | nil => exact ⟨[c], rfl⟩
           | cons d ds =>
             by_cases h4 : (d != 10) = true
-            · rw [if_pos h4]; exact ⟨[c], rfl⟩
-            · rw [if_neg h4]; exact ⟨[c, d], rfl⟩
-        · simp only [h3]
+            · simp only [h4, if_true]; exact ⟨[c], rfl⟩
+            · simp only [h4, Bool.false_eq_true, if_false]; exact ⟨[c, d], rfl⟩
+        · simp only [h3, Bool.false_eq_true, if_false]
           by_cases h4 : (c != 10) = true
-          · rw [if_pos h4]; exact ⟨[], rfl⟩
-          · rw [if_neg h4]; exact ⟨[c], rfl⟩
+          · simp only [h4, if_true]; exact ⟨[], rfl⟩
+          · simp only [h4, Bool.false_eq_true, if_false]; exact ⟨[c], rfl⟩
 
 theorem MH.fresh_suffix (cfg : Cfg) (h : MH) (buf : Bytes) : ∃ pre, buf = pre ++ (MH.fresh cfg h buf).2.1 := by
   generalize hn : buf.length = n
